@@ -26,6 +26,10 @@ class Obligation:
         self.path = None
 
 
+class StepBudget(Unsupported):
+    """a path did not finish within the step budget (candidate non-termination of the code under test)"""
+
+
 class PathCtx:
     def __init__(self, decisions, timeout_ms=10000, max_steps=400000):
         self.decisions = list(decisions)
@@ -281,7 +285,7 @@ class PathCtx:
     def tick(self):
         self.steps += 1
         if self.steps > self.max_steps:
-            raise Unsupported('step budget exceeded (%d)' % self.max_steps)
+            raise StepBudget('step budget exceeded (%d)' % self.max_steps)
 
     def branch(self, cond):
         """cond: z3 Bool (not a literal).  Returns the python truth value taken on this path."""
@@ -538,6 +542,6 @@ def explore(task, max_paths=200000, timeout_ms=10000, max_steps=400000, deadline
         r.steps = c.steps
         work.extend(c.forks)
         results.append(r)
-        if on_path is not None:
-            on_path(r)
+        if on_path is not None and on_path(r):
+            break   # the caller has seen enough (violations established): the remaining paths are not explored
     return results
